@@ -134,7 +134,7 @@ def main():
         "not_applicable": [],
         "notes": "Exit codes: 0 held (KNOWN-FINDING lines are informational), 1 VIOLATION, 2 harness error. "
                  "VERIF_SEED selects the Hypothesis seed; PYTHONHASHSEED is pinned to 0 by the runner. "
-                 "known_findings.json lists open findings (C09 D40, C11 D41 and D44, C12 D44, C13 D23) and fixed ones.",
+                 "known_findings.json lists open findings (C09 D40, C11 D41, D44 and D49, C12 D44, C13 D23) and fixed ones.",
     }
     with open(os.path.join(VERIF, "MANIFEST.json"), "w") as f:
         json.dump(man, f, indent=1)
